@@ -290,12 +290,13 @@ def t_stationary(item):
 
 
 def t_traj(item):
-    engine, k, dt, tphys, seed, damp = item
+    engine, k, dt, tphys, seed, damp = item[:6]
+    xl_extra = item[6] if len(item) > 6 else None
     n = int(round(tphys / dt))
-    mol = M.apply(M.get("H2O"), M.generic_rot(seed))
+    mol = M.apply(M.get("CH4" if xl_extra else "H2O"), M.generic_rot(seed))
     p = sp.make_params("AM1", eps=1e-10)
     out = dict(data=1, coordinates=1, velocities=0, forces=0, xyz=0, print_every=0, checkpoint_every=0)
-    r = MD.run_md(engine, [mol], p, n, dt=dt, temp=300.0, seed=11, out=out, k=k, damp=damp)
+    r = MD.run_md(engine, [mol], p, n, dt=dt, temp=300.0, seed=11, out=out, k=k, damp=damp, xl_extra=xl_extra)
     if r["error"]:
         return {"error": r["error"]}
     h = r["h5.0"]
@@ -441,14 +442,33 @@ def run(chk, tier, seed):
     if tier != "quick":
         for k in (3, 6):
             items += [("ksa", k, dt, tphys, seed, None) for dt in dts]
+    # thermal smearing: with fractional occupations the conserved quantity is the shadow FREE energy (the published
+    # potential carries the electronic-entropy term); methane at T_el = 13000 K has S_el ~ 1e-3 eV/K-scale weight
+    hot = {"max_rank": 3, "err_threshold": 0.0, "T_el": 13000}
+    items += [("ksa", 6, dt, tphys, seed, None, hot) for dt in dts]
     res = pmap(t_traj, items, chunk=1, timeout=1800, progress="C09e dt families")
     by = {}
     for it, r in zip(items, res):
         if is_timeout(r) or is_error(r) or "error" in r:
             chk.violation({"part": "e", "engine": it[0], "k": it[1], "dt": it[2]}, f"e|{it}: run failed: {r}", replay={"part": "e", "item": list(it)})
             continue
-        by[(it[0], it[1], it[2])] = r
-    for (engine, k) in sorted({(a, b) for a, b, _ in by if a != "bomd"}):
+        by[(it[0] + ("@hot" if len(it) > 6 else ""), it[1], it[2])] = r
+    # the hot KSA family: only the dt^2 scaling of the published total energy is demanded (its BOMD twin would need the
+    # same smearing in the SCF)
+    try:
+        # step 0 is the zero-temperature SCF of the initialisation (no smearing): measured from t >= 1.6 fs about the mean
+        flh = []
+        for dt in dts:
+            e = by[("ksa@hot", 6, dt)]["E"][int(round(1.6 / dt)) :]
+            flh.append(float(np.abs(e - e.mean()).max()))
+        chk.case("e|ksa@T_el=13000|k=6", outcome=f"{flh[0] / flh[1]:.2f},{flh[1] / flh[2]:.2f}", sample={"part": "e", "engine": "ksa@T_el=13000", "fluct": flh})
+        chk.traces += 1
+        chk.extra.setdefault("e_measured", {})["e|ksa@hot|k=6"] = {"fluct": flh}
+        if not (2.8 <= flh[0] / flh[1] <= 5.6 and 2.8 <= flh[1] / flh[2] <= 5.6):
+            chk.violation({"part": "e", "engine": "ksa", "k": 6, "T_el": 13000}, f"e|ksa|k=6|T_el=13000: fluctuation of the published total (free) energy under dt halving has ratios {flh[0] / flh[1]:.2f}, {flh[1] / flh[2]:.2f}, not ~4 (fluct {flh})", replay={"part": "e", "item": ["ksa@hot", 6]})
+    except KeyError:
+        pass
+    for (engine, k) in sorted({(a, b) for a, b, _ in by if a != "bomd" and not a.endswith("@hot")}):
         try:
             fl = [float(np.abs(by[(engine, k, dt)]["E"] - by[(engine, k, dt)]["E"][0]).max()) for dt in dts]
             dist = [float(np.abs(by[(engine, k, dt)]["x"] - by[("bomd", 0, dt)]["x"]).max()) for dt in dts]
